@@ -227,7 +227,9 @@ def gen_test(prog, fnkey, inputs, repo):
                 raise Untranslatable('pointer parameter to ' + et)
             varlists.append((p['name'], et, vs, True))
         else:
-            varlists.append((p['name'], tk, bld.variations(d, tk), False))
+            vs = bld.variations(d, tk)
+            extra = ['%s(%s)' % (gg.gotype(tk), code) for (nm, code) in con.seeds if nm == p['name']]
+            varlists.append((p['name'], tk, vs[:1] + extra + vs[1:], False))
     # cartesian product, model first, capped
     total = 1
     for (_, _, vs, _) in varlists:
@@ -327,8 +329,11 @@ def gen_test(prog, fnkey, inputs, repo):
         panic_check = '\t\t\tif panicked != nil {\n\t\t\t\treturn\n\t\t\t}\n'
     imports = {'math/big', 'reflect', 'fmt', 'testing'} | gg.used_imports
     specs = '\n'.join(v[0] for v in gg.specs.values() if v)
-    src = 'package %s\n\nimport (\n%s)\n%s\n%s\n' % (
-        pkgname, ''.join('\t"%s"\n' % i for i in sorted(imports) if i != pkg), PRELUDE, specs)
+    aliased = dict(gg.alias_imports)
+    aliased.update(con.seed_imports)
+    imps = ''.join('\t"%s"\n' % i for i in sorted(imports) if i != pkg and i not in aliased.values())
+    imps += ''.join('\t%s "%s"\n' % (a, p2) for a, p2 in sorted(aliased.items()) if p2 != pkg)
+    src = 'package %s\n\nimport (\n%s)\n%s\n%s\n' % (pkgname, imps, PRELUDE, specs)
     src += '''
 func vGuard(f func() bool) (ok bool, p any) {
 	defer func() { p = recover() }()
